@@ -52,11 +52,17 @@ class C16Engine(ParserMixin, SymEngine):
 
 
 ENGINE_CLASS = C16Engine
+# the tokenizer at character level (contracts/c16_lexer.py) runs in its own engine: the parser targets model the same class
+# through a ghost token stream
+from .c16_lexer import LexEngine, build_lexer  # noqa: E402
+SUB_ENGINES = [(LexEngine, lambda eng, tier: build_lexer(eng))]
 TRUSTED = ["SymPy algebra (pyvc/symmodel.py): each SymPy constructor used denotes the standard arithmetic operation",
            "parse_symbolic_expression(text) is a deterministic function of text (its own contract is proved separately)"]
 NOT_DECIDED = ["SymbolicDim.evaluate / simplify / free_symbols, Shape.evaluate / simplify, str(expr) (SymPy printer) and therefore "
                "print -> parse -> evaluate: SymPy itself, bounded stand-in only",
-               "the tokenizer's character-level behaviour (unicode classes): bounded stand-in only"]
+               "the tokenizer is PROVED against a reference lexing at character level (contracts/c16_lexer.py: maximal munch, white space, "
+               "two-character operators first, no signed numbers) relative to the character model of pyvc/charmodel.py; what "
+               "str.isdigit/isalpha/isspace answer for a given code point: bounded stand-in only"]
 BOUNDED = [{"name": "C16 expression trees x bindings vs exact Fraction arithmetic; print->parse->evaluate; grammar strings vs reference evaluator (bounded)",
             "script": "bounded_symbolic.py", "args": []}]
 
